@@ -92,6 +92,25 @@ def base_inputs(ctx, soup_n, trunc_n=0, lf_n=0, mb_n=0, case_n=0, corpus_trunc=0
         ctx.add_cases("mb", [gen.multibyte_inject(s, rng) for s in rng.sample(pool, min(len(pool), mb_n))])
     if case_n:
         ctx.add_cases("case", [gen.case_mangle(s, rng) for s in rng.sample(pool, min(len(pool), case_n))])
+    # a sample of every special family goes to every check: a change is often visible to a property whose own
+    # families do not contain the construct (DESIGN.md section 12, corrections 18, 22)
+    cn = COMMON_N[ctx.tier]
+    for fam in ("string_family", "num_family", "sep_family", "multiline_family", "err_family"):
+        if fam == "num_family":
+            ctx.add_cases("common:" + fam, gen.num_family(rng, cn, exhaustive_len=1))
+        else:
+            ctx.add_cases("common:" + fam, getattr(gen, fam)(rng, cn)[-cn:] if fam == "err_family" else getattr(gen, fam)(rng, cn))
+    ctx.add_cases("common:oc_family", rng.sample(gen.oc_family(rng, 2 * cn, exh_small=2), cn))
+    if not mb_n:
+        ctx.add_cases("common:mb", [gen.multibyte_inject(s, rng) for s in rng.sample(pool, min(len(pool), cn))])
+    if not lf_n:
+        lf = []
+        for s in rng.sample(pool, min(len(pool), cn // 2)):
+            lf.extend(gen.lf_injections(s, rng, limit=2))
+        ctx.add_cases("common:lf", lf)
+
+
+COMMON_N = {"quick": 500, "thorough": 5000}
 
 
 def regression_inputs():
@@ -356,7 +375,7 @@ GENERIC = {
     "C07": dict(q=dict(cover_n=1200, soup_n=3000, trunc_n=300, mb_n=300, extra=dict(string_family=5000)), t=dict(cover_n=40000, soup_n=30000, trunc_n=3000, mb_n=3000, extra=dict(string_family=80000)), events="all"),
     "C08": dict(q=dict(soup_n=2000, extra=dict(num_family=6000)), t=dict(soup_n=20000, extra=dict(num_family=150000)), events=False),
     "C11": dict(q=dict(soup_n=2000, extra=dict(oc_family=12000)), t=dict(soup_n=20000, extra=dict(oc_family=150000)), events=False),
-    "C09": dict(q=dict(cover_n=1200, soup_n=4000, trunc_n=800, gen_n=6000, mb_n=1500, extra=dict(string_family=2500, err_family=1500)), t=dict(cover_n=40000, soup_n=60000, trunc_n=8000, corpus_trunc=400, gen_n=80000, mb_n=15000, extra=dict(string_family=30000, err_family=20000)), events=True),
+    "C09": dict(q=dict(cover_n=1200, soup_n=4000, trunc_n=800, gen_n=6000, mb_n=1000, extra=dict(err_family=1500)), t=dict(cover_n=40000, soup_n=60000, trunc_n=8000, corpus_trunc=400, gen_n=80000, mb_n=15000, extra=dict(string_family=30000, err_family=20000)), events=True),
     "C10": dict(q=dict(cover_n=1200, soup_n=4000, trunc_n=1000, gen_n=4000), t=dict(cover_n=40000, soup_n=60000, trunc_n=8000, corpus_trunc=400), events=False),
 }
 
@@ -386,6 +405,7 @@ def run_generic(ctx):
         design_mc(ctx)
     if ctx.prop == "C05":
         views_mc(ctx)
+        views_proof(ctx)
     if ctx.prop == "C11":
         opencode_mc(ctx)
     cases = list(ctx.cases.values())
@@ -943,6 +963,34 @@ def opencode_mc(ctx):
     ctx.extra["design_model_checking"] = {"module": "spec/MC_SasLexer.tla", "invariants": ["OpenCodeEq", "NoFault"], "runs": runs}
 
 
+def views_proof(ctx):
+    """C05, unbounded: spec/BufferProof.tla (theorem ViewsAgreeThm: bulk view = accessors for every buffer whose token
+    starts are non-decreasing and whose line indices designate lines starting at or before the token) is checked by
+    tlapm.  The result is recorded; it never changes the exit code (the verdict is about the implementation)."""
+    import subprocess
+    d = os.path.join(ctx.dir, "tlaps")
+    shutil.rmtree(d, ignore_errors=True)
+    os.makedirs(d)
+    for fn in ("Buffer.tla", "BufferProof.tla"):
+        shutil.copy(os.path.join(common.SPEC, fn), d)
+    t0 = time.time()
+    try:
+        p = subprocess.run(["timeout", "300", "tlapm", "--threads", "8", "--cache-dir", os.path.join(d, "cache"), "BufferProof.tla"],
+                           cwd=d, stdout=subprocess.PIPE, stderr=subprocess.STDOUT, text=True)
+        out = p.stdout
+    except OSError as e:
+        out = "tlapm not runnable: %s" % e
+    import re
+    m = re.search(r"All (\d+) obligations? proved", out)
+    status = "proved" if m else "not established"
+    ctx.extra["unbounded_proof"] = {"module": "spec/BufferProof.tla", "theorem": "ViewsAgreeThm", "prover": "tlapm (SMT back end)",
+                                    "status": status, "obligations": int(m.group(1)) if m else 0, "wall_s": round(time.time() - t0, 1)}
+    log("[proof] BufferProof.ViewsAgreeThm: %s (%s obligations, %.1fs)" % (status, m.group(1) if m else "-", time.time() - t0))
+    if not m:
+        log("[proof] tlapm output tail: " + out[-400:].replace("\n", " | "))
+    shutil.rmtree(d, ignore_errors=True)
+
+
 def views_mc(ctx):
     """C05 at the design level: spec/MC_Views.tla enumerates every buffer satisfying the buffer invariant over small
     texts and checks bulk view = accessors = text (formulas of buffer.rs in spec/Buffer.tla)."""
@@ -1284,9 +1332,18 @@ def run_c20(ctx):
         ctx.extra["wellformed_programs"] = nmust
         crashed = [c for c in cases if "cw" not in native.get(c["id"], {})]
         ctx.extra["linked_crate_did_not_return_natively"] = len(crashed)
+        known = common.load_known()
         for c in crashed:
             if c["id"] in must_ids:
-                ctx.violations.append(("C20_returns", c["id"], "the linked lexer crate did not return on a well-formed program", "py"))
+                hit = None
+                for f in known.get("findings", []):
+                    if common.finding_matches(f, "C20", "C20_returns", c):
+                        hit = f
+                        break
+                if hit is not None:
+                    ctx.known_hits.append((hit, "C20_returns", c["id"]))
+                else:
+                    ctx.violations.append(("C20_returns", c["id"], "the linked lexer crate did not return on a well-formed program", "py"))
         def all_pairs():
             for c in cases:
                 if c["id"] in native and c["id"] in pyview and "cw" in native[c["id"]]:
